@@ -68,7 +68,7 @@ def mutations(F, node, flags, st):
                 (p[-2] in ('_file', '_tfile', 'file') or p[0] == '%param'
                  or p[0] == '%local'):
             out.append('.'.join(p[-2:]))
-        elif last == 'save' and len(p) >= 2 and p[-2] == '_index':
+        elif last == 'save' and len(p) >= 2 and 'index' in p[-2].lower():
             out.append('index.save')
         elif last == 'dump' and p[0] == '%local':
             out.append('pickle dump to a file opened for writing')
@@ -76,7 +76,8 @@ def mutations(F, node, flags, st):
 
 
 @rule('C09.R1', 'everything a read-only open or close does to the file '
-      'system is guarded by the negated read-only flag', min_instances=2)
+      'system is guarded by the negated read-only flag', props=['C01'],
+      min_instances=2)
 def r1(R):
     cls = R.prog.cls(FS)
     for meth in ('__init__', 'close'):
@@ -122,7 +123,7 @@ def r1(R):
 
 
 WRITE_API = ('store', 'deleteObject', 'restore', 'undo', 'pack', 'tpc_begin',
-             'new_oid')
+             'new_oid', 'storeBlob', 'restoreBlob')
 
 
 @rule('C09.R2', 'every write API of a read-only file storage refuses before '
@@ -699,3 +700,53 @@ def r10(R):
     R.require(seen[0] or vs, 'the index-based scan vanished from __init__')
     for v in vs:
         R.violation(v.node, v.message, g, v.path)
+
+
+# ----------------------------------------------------------------- C09.R11
+@rule('C09.R11', 'a read-write open takes the lock file before it opens any '
+      'other file of the database for writing (a second opener that is then '
+      'refused must not have touched the files of the running storage)',
+      props=['C01', 'C05'], min_instances=1)
+def r11(R):
+    cls = R.prog.cls(FS)
+    f = R.method(cls, '__init__')
+    g, b, F = R.cfg(f, cls, max_depth=5,
+                    inline=lambda t, fr: t.func.name not in (
+                        'getPathForOID',))
+    flags = Flags(F, ro_key(F))
+    locks = [0]
+
+    def edge(node, st, lab, tgt):
+        fl, locked = st
+        fl = flags.learn(node, fl, lab)
+        if fl is PRUNE:
+            return PRUNE
+        fl = flags.assign(node, fl, lab)
+        if lab not in ('e', 'eb') and any(
+                'LockFile' in m for m in mutations(F, node, flags, fl)):
+            locked = True
+        return (fl, locked)
+
+    def at(node, st):
+        fl, locked = st
+        ms = mutations(F, node, flags, fl)
+        if any('LockFile' in m for m in ms):
+            locks[0] += 1
+        others = [m for m in ms if 'LockFile' not in m]
+        if others and not locked and flags.value(fl, 'ro') is not True:
+            return Violation(
+                'FileStorage.__init__ performs %s before it has taken the '
+                'lock file: a second process that opens the same database '
+                'is refused (LockError) only after it has truncated or '
+                'replaced a file the running storage is using -- the '
+                'transaction buffer of a commit in flight is emptied, the '
+                'commit writes zeros and still returns' % '; '.join(others))
+        return st
+
+    vs, stats = explore(g, (frozenset(), False), at=at, edge=edge)
+    R.count(stats)
+    R.instance('FileStorage.__init__', lock_sites=locks[0])
+    R.require(locks[0] >= 1 or vs, 'FileStorage.__init__ no longer creates '
+              'the lock file')
+    for v in vs[:1]:
+        R.violation(v.node, v.message, g, v.path, at_root=True)
